@@ -576,6 +576,9 @@ Goals(pre, ev, a, r) ==
          G(ok /\ KIND[a.a] = "nat", "del_native") \cup
          G(ok /\ pre.del[<<a.s, a.a, a.o>>].ex /\ NIsZero(pre.del[<<a.s, a.a, a.o>>].sh), "del_again_after_empty") \cup
          G(ok /\ pre.del[<<a.s, a.a, a.o>>].ex /\ NIsPos(pre.del[<<a.s, a.a, a.o>>].sh), "del_top_up") \cup
+         \* the staker's record survived a slash that wiped the pool (shares zeroed, staker list DELETED)
+         G(ok /\ pre.del[<<a.s, a.a, a.o>>].ex /\ NIsZero(pre.del[<<a.s, a.a, a.o>>].sh) /\ ~pre.slist[<<a.o, a.a>>].ex
+              /\ \E e \in pre.sinfo : e[1] = a.o, "del_again_after_slash_wipe") \cup
          G(ok /\ \E s2 \in STAKERS \ {a.s} : NIsPos(pre.del[<<s2, a.a, a.o>>].sh), "del_with_codelegator") \cup
          G(~ok /\ r.err = "ErrDelegationAmountTooBig", "del_over_withdrawable")
     [] ev = "Undelegate" ->
@@ -583,6 +586,9 @@ Goals(pre, ev, a, r) ==
          G(ok /\ NIsPos(post.del[<<a.s, a.a, a.o>>].sh), "und_partial") \cup
          G(ok /\ NIsZero(post.del[<<a.s, a.a, a.o>>].sh) /\ NIsPos(post.pool[<<a.o, a.a>>].tsh), "und_full_exit_others_remain") \cup
          G(ok /\ NIsZero(post.pool[<<a.o, a.a>>].tsh), "und_last_share") \cup
+         \* full exit from a pool that was wiped by a slash and then delegated into again (rate back at 1:1)
+         G(ok /\ NIsZero(post.del[<<a.s, a.a, a.o>>].sh) /\ (\E e \in pre.sinfo : e[1] = a.o) /\ ~RateSkewed(pre, a.o, a.a)
+              /\ NIsPos(pl.amt), "und_full_exit_from_slashed_operator") \cup
          G(ok /\ RateSkewed(pre, a.o, a.a), "und_skewed_rate") \cup
          G(ok /\ HOOKED /\ a.o \in HOLDOPS, "und_hold_placed") \cup
          G(ok /\ KIND[a.a] = "nat", "und_native") \cup
@@ -600,8 +606,10 @@ Goals(pre, ev, a, r) ==
            "msgund_second_entry_fails")
     [] ev = "Associate"  ->
          G(ok /\ \E x \in ASSETS : NIsPos(pre.del[<<a.s, x, a.o>>].sh), "assoc_with_position") \cup
+         G(ok /\ Cardinality({x \in ASSETS : NIsPos(pre.del[<<a.s, x, a.o>>].sh)}) >= 2, "assoc_with_positions_in_two_assets") \cup
          G(~ok /\ pre.assoc[a.s] # "" /\ a.o \in OPERATORS /\ \E x \in ASSETS : NIsPos(pre.del[<<a.s, x, a.o>>].sh), "assoc_refused_with_position")
-    [] ev = "Dissociate" -> G(ok /\ \E x \in ASSETS : NIsPos(pre.del[<<a.s, x, pre.assoc[a.s]>>].sh), "dissoc_with_position")
+    [] ev = "Dissociate" -> G(ok /\ \E x \in ASSETS : NIsPos(pre.del[<<a.s, x, pre.assoc[a.s]>>].sh), "dissoc_with_position") \cup
+                            G(ok /\ Cardinality({x \in ASSETS : NIsPos(pre.del[<<a.s, x, pre.assoc[a.s]>>].sh)}) >= 2, "dissoc_with_positions_in_two_assets")
     [] ev = "ReleaseHold" -> G(ok, "hold_released")
     [] ev = "EndBlock" ->
          LET rel == DOMAIN pre.recs \ DOMAIN post.recs IN
@@ -633,6 +641,13 @@ Goals(pre, ev, a, r) ==
                                             /\ NIsPos(pre.recs[k].actual) /\ NLt(pre.recs[k].actual, pre.recs[k].amt)
                                             /\ NGt(DecTruncInt(DecMulInt(pr.p, pre.recs[k].amt), PREC), pre.recs[k].actual),
            "slash_caps_reduced_record") \cup
+         \* ... or hit again WITHOUT reaching the cap: the cut is still measured on the original amount
+         G(ok /\ \E k \in DOMAIN pre.recs : /\ pre.recs[k].o = a.o /\ pre.recs[k].start >= a.infr /\ a.infr < pre.h
+                                            /\ NIsPos(pre.recs[k].actual) /\ NLt(pre.recs[k].actual, pre.recs[k].amt)
+                                            /\ NIsPos(DecTruncInt(DecMulInt(pr.p, pre.recs[k].amt), PREC))
+                                            /\ NLt(DecTruncInt(DecMulInt(pr.p, pre.recs[k].amt), PREC), pre.recs[k].actual)
+                                            /\ ~NEq(DecTruncInt(DecMulInt(pr.p, pre.recs[k].amt), PREC), DecTruncInt(DecMulInt(pr.p, pre.recs[k].actual), PREC)),
+           "slash_reduced_record_below_cap") \cup
          G(ok /\ a.infr < pre.h /\ Cardinality({k \in DOMAIN pre.recs : pre.recs[k].o = a.o /\ pre.recs[k].start >= a.infr
                                                     /\ ~NEq(pre.recs[k].actual, post.recs[k].actual)}) >= 2, "slash_two_records") \cup
          G(ok /\ a.infr < pre.h /\ \E k \in DOMAIN pre.recs : pre.recs[k].o = a.o /\ pre.recs[k].start = a.infr
@@ -660,7 +675,8 @@ Goals(pre, ev, a, r) ==
 
 AllGoals ==
   {"dep_ok", "wd_ok", "wd_over_balance_within_total", "wd_within_balance_over_total",
-   "del_first_into_pool", "del_skewed_rate", "del_self", "del_native", "del_again_after_empty", "del_top_up",
+   "del_first_into_pool", "del_skewed_rate", "del_self", "del_native", "del_again_after_empty", "del_top_up", "del_again_after_slash_wipe",
+   "und_full_exit_from_slashed_operator", "assoc_with_positions_in_two_assets", "dissoc_with_positions_in_two_assets", "slash_reduced_record_below_cap",
    "del_with_codelegator", "del_over_withdrawable",
    "und_partial", "und_full_exit_others_remain", "und_last_share", "und_skewed_rate", "und_hold_placed", "und_native",
    "und_self", "und_second_pending_same_staker_asset", "und_over_position",
